@@ -106,15 +106,14 @@ EXPORT void vf_sdu_construct( int cfg )
     FOR_CFG( cfg, typedef typename std::remove_reference< decltype( b ) >::type T; new ( &b ) T() );
 }
 
-/* where: 0 empty buffer, 1 inside the reassembly buffer (*off = offset in it), 2 somewhere else (a PDU of the radio) */
-EXPORT const std::uint8_t* vf_sdu_next_ll_l2cap_received( int cfg, unsigned long* out_size, int* where, long* off )
+/* where: 0 empty buffer, 1 the reassembly buffer (receive_buffer_), 2 something else (a PDU of the radio);
+ * decided by pointer equality only: no pointer -> integer conversions in the unit */
+EXPORT const std::uint8_t* vf_sdu_next_ll_l2cap_received( int cfg, unsigned long* out_size, int* where )
 {
     write_buffer r;
     FOR_CFG( cfg,
         r = b.next_ll_l2cap_received();
-        if ( r.buffer == nullptr ) { *where = 0; *off = 0; }
-        else if ( r.buffer >= &b.receive_buffer_[ 0 ] && r.buffer < &b.receive_buffer_[ 0 ] + sizeof( b.receive_buffer_ ) ) { *where = 1; *off = r.buffer - &b.receive_buffer_[ 0 ]; }
-        else { *where = 2; *off = 0; }
+        *where = r.buffer == nullptr ? 0 : ( r.buffer == &b.receive_buffer_[ 0 ] ? 1 : 2 );
     );
     *out_size = r.size;
     return r.buffer;
@@ -158,17 +157,17 @@ EXPORT unsigned long vf_sdu_geometry( int cfg, int what )
 {
     unsigned long r = 0;
     FOR_CFG( cfg,
-        const char* const base = reinterpret_cast< const char* >( &b );
+        typedef typename std::remove_reference< decltype( b ) >::type T;
         switch ( what ) {
-        case 0: r = sizeof( b ); break;
-        case 1: r = reinterpret_cast< const char* >( &b.receive_buffer_[ 0 ] ) - base; break;
+        case 0: r = sizeof( T ); break;
+        case 1: r = __builtin_offsetof( T, receive_buffer_ ); break;
         case 2: r = sizeof( b.receive_buffer_ ); break;
-        case 3: r = reinterpret_cast< const char* >( &b.receive_size_ ) - base; break;
-        case 4: r = reinterpret_cast< const char* >( &b.receive_buffer_used_ ) - base; break;
-        case 5: r = reinterpret_cast< const char* >( &b.transmit_buffer_[ 0 ] ) - base; break;
+        case 3: r = __builtin_offsetof( T, receive_size_ ); break;
+        case 4: r = __builtin_offsetof( T, receive_buffer_used_ ); break;
+        case 5: r = __builtin_offsetof( T, transmit_buffer_ ); break;
         case 6: r = sizeof( b.transmit_buffer_ ); break;
-        case 7: r = reinterpret_cast< const char* >( &b.transmit_size_ ) - base; break;
-        default: r = reinterpret_cast< const char* >( &b.transmit_buffer_used_ ) - base; break;
+        case 7: r = __builtin_offsetof( T, transmit_size_ ); break;
+        default: r = __builtin_offsetof( T, transmit_buffer_used_ ); break;
         }
     );
     return r;
